@@ -13,6 +13,7 @@ nearest-grid statement below), `fftconvolve`'s floating point, the `max < 3·std
 import OptiVerif.Lemmas.PpgEmit
 import OptiVerif.Lemmas.PpgSync
 import OptiVerif.Lemmas.PpgKron
+import OptiVerif.Lemmas.PpgSyncNoise
 
 namespace OptiVerif.Props.C20
 open OptiVerif OptiVerif.Ppg OptiVerif.Sync OptiVerif.Gen.PpgLimits
@@ -401,6 +402,158 @@ example : ∀ b ∈ ([1, 1, 1, 0, 1, 0, 0] : List Int), 0 ≤ b := by decide
 /-- test (not a theorem): the model run on that instance -/
 example : syncLag ([1, 0, 0, 0, 0, 1, 1, 1, 1, 1, 1, 0, 0, 1,   1, 0, 0, 0, 0, 1, 1, 1, 1, 1, 1, 0, 0, 1,   1, 0, 0, 0, 0])
     [1, 1, 1, 0, 1, 0, 0] 2 = .ok 5 := by decide
+
+/-! ### SYNC with noise: additivity, decision margin, gap, amplitude bound
+Over any linearly ordered commutative ring `R` (ℤ, ℚ, ℝ): the record is `rx = clean + e` sample by sample (`addL`),
+`corrAt x w i` is the correlation value of `x` at lag `i` (the entries of `corr`), `sumAbs w = Σ|wⱼ|`. -/
+
+section Noise
+variable {R : Type} [CommRing R] [LinearOrder R] [IsStrictOrderedRing R]
+
+/-- the cross-correlation is additive in the record, lag by lag: `corr(clean + e) = corr(clean) + corr(e)` -/
+theorem sync_corr_linear (c e w : List R) (h : c.length = e.length) :
+    (∀ i, corrAt (addL c e) w i = corrAt c w i + corrAt e w i) ∧
+    corr (addL c e) w = addL (corr c w) (corr e w) :=
+  ⟨corrAt_add c e w h, corr_add c e w h⟩
+
+/-- Decision margin for ANY clean record `c`: if for every competing lag `m ≠ d` the noise contribution satisfies
+    `ce(m) − ce(d) < cc(d) − cc(m)` (the noise moves no competing lag up to the clean peak), the alignment step on
+    `c + e` returns `d`.  (This is the hypothesis the harness evaluates numerically on every noisy case.) -/
+theorem sync_margin_general (c e w : List R) (h : c.length = e.length) (d : Nat) (hl : w.length ≤ c.length)
+    (hw : 0 < w.length) (hd : d < (corr c w).length)
+    (hm : ∀ m, m < (corr c w).length → m ≠ d → corrAt e w m - corrAt e w d < corrAt c w d - corrAt c w m) :
+    lagW (addL c e) w = .ok d := by
+  unfold lagW
+  rw [if_neg (by rw [addL_length c e h]; omega), if_neg (by omega), argmax_margin c e w h d hd hm]
+
+/-- the clean delayed record: its correlation is the cyclic autocorrelation of the waveform, `cc(m) = R((l−d+m) mod l)`
+    with `R(k) = Σ w·shiftₖ(w)`, peak `cc(d) = R(0) = Σ w²`; for a 0/1 slot pattern `R(0) = sps · (number of ones)` -/
+theorem sync_clean_corr (tx : List R) (sps d : Nat) (tail : List R) (hd : d < (kron tx sps).length) :
+    (∀ m, m < (kron tx sps).length →
+      corrAt ((kron tx sps).rotate ((kron tx sps).length - d) ++ (kron tx sps).rotate ((kron tx sps).length - d) ++ tail)
+        (kron tx sps) m = dot ((kron tx sps).rotate (((kron tx sps).length - d + m) % (kron tx sps).length)) (kron tx sps)) ∧
+    corrAt ((kron tx sps).rotate ((kron tx sps).length - d) ++ (kron tx sps).rotate ((kron tx sps).length - d) ++ tail)
+        (kron tx sps) d = dot (kron tx sps) (kron tx sps) ∧
+    ((∀ b ∈ tx, b = 0 ∨ b = 1) → dot (kron tx sps) (kron tx sps) = (sps : R) * total tx ∧
+      sumAbs (kron tx sps) = (sps : R) * total tx) := by
+  refine ⟨fun m hm => corrAt_delayed _ tail d m hd hm, corrAt_delayed_peak _ tail d hd, fun h01 => ?_⟩
+  obtain ⟨h1, h2⟩ := sumAbs_01 (kron tx sps) (kron_01 tx sps h01)
+  rw [h1, h2, total_kron]
+  exact ⟨rfl, rfl⟩
+
+/-- the gap `cc(d) − cc(m)` of the clean record is positive at every competing lag under the aperiodicity hypothesis
+    of `sync_argmax` -/
+theorem sync_gap_pos (w : List R) (d m : Nat) (hd : d < w.length) (hm : m < w.length) (hne : m ≠ d)
+    (hap : ∀ k, 0 < k → k < w.length → w.rotate k ≠ w) :
+    0 < dot w w - dot (w.rotate ((w.length - d + m) % w.length)) w :=
+  gap_pos w d m hd hm hne hap
+
+/-- **Decision margin for the delayed repeated pattern.**  `rx = clean + e`, `clean` = the waveform repeated (≥ 2 periods)
+    and delayed by `d < l` as in `sync_argmax`, `e` any perturbation of the same length.  If for every lag `m ≠ d`
+    (`m < l`)  `ce(m) − ce(d) < R(0) − R((l−d+m) mod l)`,  then the argmax over the lags `0 … l−1` is still `d`, and the
+    complete SYNC returns index `d` and `rx[d : d+len−l]` unless its `max < 3·std` test rejects the record. -/
+theorem sync_argmax_margin (tx : List R) (sps d : Nat) (tail e rx : List R) (hd : d < (kron tx sps).length)
+    (he : e.length = ((kron tx sps).rotate ((kron tx sps).length - d) ++ (kron tx sps).rotate ((kron tx sps).length - d)
+      ++ tail).length)
+    (hrx : rx = addL ((kron tx sps).rotate ((kron tx sps).length - d) ++ (kron tx sps).rotate ((kron tx sps).length - d)
+      ++ tail) e)
+    (hm : ∀ m, m < (kron tx sps).length → m ≠ d → corrAt e (kron tx sps) m - corrAt e (kron tx sps) d <
+      dot (kron tx sps) (kron tx sps) -
+        dot ((kron tx sps).rotate (((kron tx sps).length - d + m) % (kron tx sps).length)) (kron tx sps)) :
+    syncLag rx tx sps = .ok d ∧
+    ((∃ o, sync rx tx sps = .ok o ∧ o.index = d ∧ o.signal = (rx.drop d).take (rx.length - (kron tx sps).length)) ∨
+      sync rx tx sps = .error .ValueError) := by
+  have ha := lagW_margin (kron tx sps) tail e d hd he hm
+  have hlen : ¬ rx.length < (kron tx sps).length := by
+    rw [hrx, addL_length _ _ he.symm]
+    simp only [List.length_append, List.length_rotate]; omega
+  constructor
+  · unfold syncLag lagW
+    rw [if_neg hlen, if_neg (by omega), hrx, ha]
+  · unfold sync syncW
+    simp only
+    rw [if_neg hlen, if_neg (by omega)]
+    rw [hrx] at *
+    rw [ha]
+    simp only
+    split_ifs
+    · exact Or.inr rfl
+    · exact Or.inr rfl
+    · exact Or.inl ⟨_, rfl, rfl, rfl⟩
+
+/-- the symmetric form: if `|ce(m)| < g/2` at every lag, where `g` is a lower bound of all gaps `R(0) − R(k)`,
+    `0 < k < l`, the alignment is `d` -/
+theorem sync_argmax_half_gap (w tail e : List R) (d : Nat) (g : R) (hd : d < w.length)
+    (he : e.length = (w.rotate (w.length - d) ++ w.rotate (w.length - d) ++ tail).length)
+    (hg : ∀ k, 0 < k → k < w.length → g ≤ dot w w - dot (w.rotate k) w)
+    (hn : ∀ m, m < w.length → 2 * |corrAt e w m| < g) :
+    lagW (addL (w.rotate (w.length - d) ++ w.rotate (w.length - d) ++ tail) e) w = .ok d := by
+  have ha := lagW_margin w tail e d hd he (by
+    intro m hm hne
+    obtain ⟨_, hz, hlt⟩ := rotate_back w d m hd hm
+    have hpos : 0 < (w.length - d + m) % w.length := by
+      rcases Nat.eq_zero_or_pos ((w.length - d + m) % w.length) with h0 | hp
+      · exact absurd (hz.mp h0) hne
+      · exact hp
+    have h1 := hg _ hpos hlt
+    have h2 := hn m hm
+    have h3 := hn d hd
+    have h4 := le_abs_self (corrAt e w m)
+    have h5 := neg_abs_le (corrAt e w d)
+    linarith)
+  unfold lagW
+  rw [if_neg (by rw [addL_length _ _ he.symm]; simp only [List.length_append, List.length_rotate]; omega),
+    if_neg (by omega), ha]
+
+/-- **Crude amplitude bound.**  If every noise sample satisfies `|eᵢ| ≤ ε` then `|ce(m)| ≤ ε·Σ|w|` at every lag; hence
+    `2·ε·Σ|w| < R(0) − R(k)` for all `0 < k < l` (for a 0/1 pattern: `ε < gap / (2·sps·ones)`) suffices for the
+    alignment to be `d`. -/
+theorem sync_noise_amplitude_bound (w tail e : List R) (d : Nat) (ε : R) (hε : 0 ≤ ε) (hd : d < w.length)
+    (he : e.length = (w.rotate (w.length - d) ++ w.rotate (w.length - d) ++ tail).length)
+    (hb : ∀ x ∈ e, |x| ≤ ε)
+    (hg : ∀ k, 0 < k → k < w.length → 2 * ε * sumAbs w < dot w w - dot (w.rotate k) w) :
+    (∀ m, |corrAt e w m| ≤ ε * sumAbs w) ∧
+    lagW (addL (w.rotate (w.length - d) ++ w.rotate (w.length - d) ++ tail) e) w = .ok d := by
+  have hc := corrAt_abs_le e w ε hε hb
+  refine ⟨hc, ?_⟩
+  have ha := lagW_margin w tail e d hd he (by
+    intro m hm hne
+    obtain ⟨_, hz, hlt⟩ := rotate_back w d m hd hm
+    have hpos : 0 < (w.length - d + m) % w.length := by
+      rcases Nat.eq_zero_or_pos ((w.length - d + m) % w.length) with h0 | hp
+      · exact absurd (hz.mp h0) hne
+      · exact hp
+    have h1 := hg _ hpos hlt
+    have h2 := hc m
+    have h3 := hc d
+    have h4 := le_abs_self (corrAt e w m)
+    have h5 := neg_abs_le (corrAt e w d)
+    linarith)
+  unfold lagW
+  rw [if_neg (by rw [addL_length _ _ he.symm]; simp only [List.length_append, List.length_rotate]; omega),
+    if_neg (by omega), ha]
+
+end Noise
+
+/-- non-vacuity of the amplitude bound over ℤ: PRBS3 `1110100` with amplitude 10 at 2 samples per slot has
+    `Σ|w| = 80`, `R(0) = 800` and all gaps `R(0) − R(k) ≥ 200`, so any perturbation with `|eᵢ| ≤ 1` (10 % of the
+    amplitude) satisfies `2·ε·Σ|w| = 160 < gap` -/
+example : ∀ k, 0 < k → k < (kron ([10, 10, 10, 0, 10, 0, 0] : List Int) 2).length →
+    2 * 1 * sumAbs (kron ([10, 10, 10, 0, 10, 0, 0] : List Int) 2) <
+      dot (kron ([10, 10, 10, 0, 10, 0, 0] : List Int) 2) (kron [10, 10, 10, 0, 10, 0, 0] 2) -
+        dot ((kron ([10, 10, 10, 0, 10, 0, 0] : List Int) 2).rotate k) (kron [10, 10, 10, 0, 10, 0, 0] 2) := by
+  have : ∀ k : Fin 14, 0 < k.val →
+      2 * 1 * sumAbs (kron ([10, 10, 10, 0, 10, 0, 0] : List Int) 2) <
+        dot (kron ([10, 10, 10, 0, 10, 0, 0] : List Int) 2) (kron [10, 10, 10, 0, 10, 0, 0] 2) -
+          dot ((kron ([10, 10, 10, 0, 10, 0, 0] : List Int) 2).rotate k.val) (kron [10, 10, 10, 0, 10, 0, 0] 2) := by
+    decide
+  intro k h1 h2
+  exact this ⟨k, h2⟩ h1
+
+/-- test (not a theorem): a perturbed record of that pattern (delay 5, perturbation ±1) is aligned at 5 -/
+example : syncLag (addL ((kron ([10, 10, 10, 0, 10, 0, 0] : List Int) 2).rotate 9 ++ (kron [10, 10, 10, 0, 10, 0, 0] 2).rotate 9
+    ++ [10, 0, 0]) [1, -1, 1, 1, -1, 0, 1, -1, -1, 1, 1, -1, 1, 0, -1, 1, 1, -1, 1, -1, 0, 1, -1, 1, 1, -1, 1, 1, -1, 1, -1])
+    [10, 10, 10, 0, 10, 0, 0] 2 = .ok 5 := by decide
 
 /-- a record shorter than the pattern's waveform (`len(rx) < len(slots)·sps`) is rejected with `BufferError`,
     and only such records are -/
